@@ -236,9 +236,8 @@ inline constexpr void Conversion<Unit::MassDensity, Unit::MassDensity::PoundPerC
 }
 
 template <typename NumericType>
-inline const std::
-    map<Unit::MassDensity, std::function<void(NumericType* values, const std::size_t size)>>
-        MapOfConversionsFromStandard<Unit::MassDensity, NumericType>{
+inline const ConversionTable<Unit::MassDensity, NumericType>
+    MapOfConversionsFromStandard<Unit::MassDensity, NumericType>{
           {Unit::MassDensity::KilogramPerCubicMetre,
            Conversions<Unit::MassDensity, Unit::MassDensity::KilogramPerCubicMetre>::
                FromStandard<NumericType>},
@@ -260,9 +259,8 @@ inline const std::
 };
 
 template <typename NumericType>
-inline const std::
-    map<Unit::MassDensity, std::function<void(NumericType* const values, const std::size_t size)>>
-        MapOfConversionsToStandard<Unit::MassDensity, NumericType>{
+inline const ConversionTable<Unit::MassDensity, NumericType>
+    MapOfConversionsToStandard<Unit::MassDensity, NumericType>{
           {Unit::MassDensity::KilogramPerCubicMetre,
            Conversions<Unit::MassDensity, Unit::MassDensity::KilogramPerCubicMetre>::
                ToStandard<NumericType>},
